@@ -286,6 +286,9 @@ func genC07iPlan(r *zsim.Rng) *c07iPlan {
 		p.Events = append(p.Events, sysEvent{Kind: "keys", Keys: keys[r.Intn(len(keys))]}, sysEvent{Kind: "settle"})
 	}
 	p.Events = append(p.Events, sysEvent{Kind: "keys", Keys: p.End})
+	if r.Chance(1, 4) {
+		p.ClockGrain = []int{8, 64, 100000}[r.Intn(3)] // a coarse clock: selections of one action carry the same instant
+	}
 	return p
 }
 
@@ -743,7 +746,12 @@ func runC18s(c *runCtx) {
 			sp.Events = append(sp.Events, sysEvent{Kind: "settle"})
 		}
 		r := newSysRun(c, &sp)
-		// model of the query line under history navigation (same as H-hist's)
+		// model of the query line under history navigation (same as H-hist's); a session loads the most recent
+		// --history-size entries of a file that holds more
+		if len(E) > plan.Max {
+			E = E[len(E)-plan.Max:]
+			c.count("probe.loaded_file_over_limit", 1)
+		}
 		pos := len(E)
 		scratch := ""
 		modified := map[int]string{}
